@@ -359,6 +359,88 @@ let () = register "hostile" (fun args ->
     if L.mem "panic" impl then "bad:panic" else if L.mem "hang" impl then "bad:hang" else "ok" in
   (S.concat "|" parts, oracle))
 
+(* ---- stack protocol traces: C04 C05 C06 C08 C09 C10 C16 ---- *)
+open StackTrace
+let parse_path (s : string) : path =
+  let num pre = nat_of_int (int_of_string (S.sub s (S.length pre) (S.length s - S.length pre))) in
+  if s = "L" then PL else if s = "LL" then PLL else if s = "DIR" then PDir
+  else if S.length s > 3 && S.sub s 0 3 = "TMP" then PTmp (num "TMP")
+  else if S.length s > 2 && S.sub s 0 2 = "TL" then PTL (num "TL")
+  else if S.length s > 1 && s.[0] = 'T' then PT (num "T")
+  else POther
+let parse_ids s = L.map (fun x -> nat_of_int (int_of_string x)) (split_on ',' s)
+let parse_fres = function "ok" -> FOk | "EEXIST" -> FExist | "ENOENT" -> FNoEnt | _ -> FOtherErr
+let parse_apiop (s : string) : apiop =
+  let arg2 pre = (* "<pre>(tx,auto)" *)
+    let inner = S.sub s (S.length pre + 1) (S.length s - S.length pre - 2) in
+    match S.split_on_char ',' inner with
+    | [a; b] -> (nat_of_int (int_of_string a), b = "1")
+    | _ -> failwith "bad op args" in
+  if s = "open" then AOpen else if s = "addempty" then AAddEmpty else if s = "addbad" then AAddBad
+  else if s = "compactall" then ACompactAll else if s = "expire" then AExpire else if s = "close" then AClose
+  else if s = "read" then ARead else if s = "clean" then AClean
+  else if S.length s > 8 && S.sub s 0 8 = "addmulti" then (let (t, a) = arg2 "addmulti" in AAddMulti (t, a))
+  else if S.length s > 3 && S.sub s 0 3 = "add" then (let (t, a) = arg2 "add" in AAdd (t, a))
+  else failwith ("bad api op " ^ s)
+let parse_apires (s : string) : apires =
+  if s = "ok" then ROk else if s = "lockfailure" then RLockFailure else if s = "rejected" then RRejected
+  else if s = "err" then RErr else if s = "nostack" then RNoStack else if s = "readerr" then RReadErr
+  else if S.length s > 5 && S.sub s 0 5 = "view[" then begin
+    let inner = S.sub s 5 (S.length s - 6) in
+    match S.split_on_char '|' inner with
+    | [txs; sh] -> RView (parse_ids txs, (if sh = "" then None else Some (nat_of_int (int_of_string sh))))
+    | _ -> RPanic
+  end else RPanic
+let parse_snapshot (s : string) : snapshot =
+  match S.split_on_char '|' s with
+  | [l; tabs; files] ->
+    let lst = if S.length l >= 2 && S.sub l 0 2 = "L=" then S.sub l 2 (S.length l - 2) else "-" in
+    let sn_list = if lst = "-" then None else Some (parse_ids lst) in
+    let tab t = match S.split_on_char '=' t with
+      | [id; info] ->
+        let st = match S.split_on_char ':' info with
+          | [range; txs] -> (match S.split_on_char '-' range with
+              | [a; b] -> TGood { ti_min = n_of_string a; ti_max = n_of_string b; ti_txs = parse_ids txs }
+              | _ -> TBad)
+          | _ -> TBad in
+        (nat_of_int (int_of_string id), st)
+      | _ -> failwith "bad tab" in
+    { sn_list; sn_tabs = L.map tab (split_on ';' tabs); sn_files = L.map parse_path (split_on ',' files) }
+  | _ -> failwith "bad snapshot"
+let parse_trace (s : string) : event list =
+  let last = ref { sn_list = None; sn_tabs = []; sn_files = [] } in
+  L.filter_map (fun tok ->
+    if tok = "" then None
+    else if tok = "@=" then Some (ESnap !last)
+    else if tok.[0] = '@' then (let sn = parse_snapshot (S.sub tok 1 (S.length tok - 1)) in last := sn; Some (ESnap sn))
+    else if tok.[0] = '!' then Some EViol
+    else match S.split_on_char ':' tok with
+      | h :: "call" :: op :: _ -> Some (ECall (nat_of_int (int_of_string h), parse_apiop op))
+      | h :: "ret" :: op :: res :: _ -> Some (ERet (nat_of_int (int_of_string h), parse_apiop op, parse_apires res))
+      | [h; "mem"; ids; closed] -> Some (EMem (nat_of_int (int_of_string h), parse_ids ids, nat_of_int (int_of_string closed)))
+      | h :: "crash" :: _ -> Some (ECrash (nat_of_int (int_of_string h)))
+      | h :: "rename" :: pp :: res :: _ ->
+        (match S.split_on_char '>' pp with
+         | [a; b] -> Some (EFs (nat_of_int (int_of_string h), FRename (parse_path b), parse_path a, parse_fres res, []))
+         | _ -> failwith "bad rename")
+      | h :: "read_file" :: p :: res :: rest ->
+        Some (EFs (nat_of_int (int_of_string h), FReadFile, parse_path p, parse_fres res, (match rest with [ids] -> parse_ids ids | _ -> [])))
+      | h :: op :: p :: res :: _ ->
+        let o = match op with "create_excl" -> FCreateExcl | "open" -> FOpen | "remove" -> FRemove
+                            | "create_temp" -> FCreateTemp | "read_dir" -> FReadDir | _ -> failwith ("bad fs op " ^ op) in
+        Some (EFs (nat_of_int (int_of_string h), o, parse_path p, parse_fres res, []))
+      | _ -> failwith ("bad event " ^ tok)) (S.split_on_char ' ' s)
+
+let () = register "stackrun" (fun args ->
+  let oracle =
+    if L.length args < 2 then "-" else
+    let tr = parse_trace (L.nth args 1) in
+    let want = match Sys.getenv_opt "VERIF_PROP" with Some p -> S.lowercase_ascii p | None -> "all" in
+    let checks = [ ("c04", c04_ok); ("c05", c05_ok); ("c06", c06_ok); ("c08", c08_ok); ("c09", c09_ok); ("c10", c10_ok); ("c16", c16_ok) ] in
+    let bad = L.filter_map (fun (n, f) -> if (want = "all" || want = n) && not (f tr) then Some n else None) checks in
+    if bad = [] then "ok" else "bad:" ^ S.concat "," bad in
+  ("-nomodel-", oracle))
+
 let () =
   try
     while true do
